@@ -52,7 +52,12 @@ UNITS = [
      ["RUN_MASK", "COUNT_MASK", "RLE_BUF_SIZE", "RLE_MIN_RUN", "RLE_MAX_RUN", "RLE_MIN_MIX", "RLE_NIL"], []),
     ("Atom", '#include "hdf_priv.h"\n#include "%s/atom.c"\n' % HS,
      ["GROUP_BITS", "GROUP_MASK", "ATOM_BITS", "ATOM_MASK", "ATOM_CACHE_SIZE", "MAXGROUP",
-      ("ATOM_T_BITS", "(sizeof(atom_t)*8)")], []),
+      ("ATOM_T_BITS", "(sizeof(atom_t)*8)"),
+      # C13 atom model: status codes, the invalid group, FAIL as an atom_t bit pattern, width of `unsigned` (nextid)
+      "SUCCEED", "FAIL", "BADGROUP", ("FAIL_ATOM", "(uint32_t)(atom_t)FAIL"), ("UNSIGNED_BITS", "(sizeof(unsigned)*8)")],
+     # initial contents of the static atom cache, read from the compiled initialisers (ids as uint32 bit patterns)
+     [("atom_id_cache_init", "((uint32_t *)atom_id_cache)", "ATOM_CACHE_SIZE"),
+      ("atom_obj_cache_init", "((uintptr_t *)atom_obj_cache)", "ATOM_CACHE_SIZE")]),
     ("Bitvect", '#include "hdf_priv.h"\n#include "%s/bitvect.c"\n' % HS,
      ["BV_DEFAULT_BITS", "BV_CHUNK_SIZE", "BV_BASE_BITS"],
      [("bv_first_zero", "bv_first_zero", "256"), ("bv_bit_value", "bv_bit_value", "8"), ("bv_bit_mask", "bv_bit_mask", "9")]),
